@@ -2,11 +2,29 @@
 
 PROPS = {
     "C17": {
-        "modules": ["c17_scoreboard"],
+        "modules": ["c17_scoreboard", "c02_calendar"],
         "level": "proof",
         "bounded": [{"script": "c17_scan.py"}],
         "explanation": "",
-        "trusted_base": [],
-        "assumptions": [],
+    },
+    "C13": {
+        "modules": ["c13_pairs"],
+        "level": "proof",
+        "bounded": [{"script": "c17_scan.py"}],
+    },
+    "C02": {
+        "modules": ["c01_ledger"],
+        "level": "other",
+        "bounded": [],
+    },
+    "C05": {
+        "modules": ["c01_ledger", "c03_task"],
+        "level": "other",
+        "bounded": [],
+    },
+    "C01": {
+        "modules": ["c01_ledger", "c03_task"],
+        "level": "other",
+        "bounded": [],
     },
 }
